@@ -57,12 +57,21 @@ func main() {
 		fmt.Fprintf(os.Stderr, "gen:func %v\n", e)
 		failed = true
 	}
-	if err := os.WriteFile(filepath.Join(*out, "Funcs.lean"), []byte(funcs), 0o644); err != nil {
-		fmt.Fprintln(os.Stderr, err)
-		os.Exit(1)
+	var names []string
+	total := 0
+	for name := range funcs {
+		names = append(names, name)
+	}
+	sort.Strings(names)
+	for _, name := range names {
+		total += len(strings.TrimSpace(funcs[name]))
+		if err := os.WriteFile(filepath.Join(*out, name), []byte(funcs[name]), 0o644); err != nil {
+			fmt.Fprintln(os.Stderr, err)
+			os.Exit(1)
+		}
 	}
 	if failed {
 		os.Exit(1)
 	}
-	fmt.Printf("gen: %d fact files, Funcs.lean (%d bytes)\n", len(files), len(strings.TrimSpace(funcs)))
+	fmt.Printf("gen: %d fact files, %s (%d bytes)\n", len(files), strings.Join(names, " "), total)
 }
